@@ -88,6 +88,42 @@ func spaced(r *rand.Rand, line string) string {
 	}
 }
 
+// flipSomeColours changes the colour of one or more non-king men in place (same squares, same clocks, same
+// castling letters), keeping the position legal. In FEN text only the case of letters changes.
+func flipSomeColours(r *rand.Rand, p ref.Pos) (ref.Pos, bool) {
+	for try := 0; try < 30; try++ {
+		q := p
+		n := 0
+		for sq, v := range p.B {
+			if v == 0 || v == ref.King || v == -ref.King {
+				continue
+			}
+			if r.Intn(3) == 0 {
+				q.B[sq] = -v
+				n++
+			}
+		}
+		if n == 0 || q.Key() == p.Key() {
+			continue
+		}
+		// castling letters and e.p. stay textually identical; require them to remain consistent
+		ok := q.EP < 0 && !q.InCheck(!q.White)
+		for _, f := range []struct {
+			flag     uint8
+			ksq, rsq int
+			sign     int8
+		}{{ref.CastleWK, 4, 7, 1}, {ref.CastleWQ, 4, 0, 1}, {ref.CastleBK, 60, 63, -1}, {ref.CastleBQ, 60, 56, -1}} {
+			if q.Cast&f.flag != 0 && (q.B[f.ksq] != f.sign*ref.King || q.B[f.rsq] != f.sign*ref.Rook) {
+				ok = false
+			}
+		}
+		if ok {
+			return q, true
+		}
+	}
+	return p, false
+}
+
 func c10Session(c *fw.Ctx, r *rand.Rand, idx int) {
 	rc := &recipes[[]int{0, 0, 1, 2, 3}[r.Intn(5)]]
 	s := newUCISession(rc, engine.Options{Depth: 1, Hash: 0}, 0, false, 1, false)
@@ -113,7 +149,7 @@ func c10Session(c *fw.Ctx, r *rand.Rand, idx int) {
 	}
 	n := 2 + r.Intn(10)
 	for step := 0; step < n; step++ {
-		kind := r.Intn(11)
+		kind := r.Intn(13)
 		next := cur
 		line := ""
 		name := ""
@@ -183,6 +219,32 @@ func c10Session(c *fw.Ctx, r *rand.Rand, idx int) {
 				next = lineGame{h.Start, h.Moves}
 			}
 			line, name = next.cmd(false), "fen-prefix-trap"
+		case 10: // the current position spelled as a bare FEN: a new game without history
+			fp := cur.game().Cur
+			next = lineGame{fp, nil}
+			line, name = next.cmd(false), "fen-of-current"
+		case 11: // a FEN that differs from the previous FEN line only in the case of piece letters (colours swapped)
+			base := cur.game().Cur
+			first := lineGame{base, nil}
+			if !apply(first.cmd(false), first, "case-flip-base") {
+				s.shutdown(true)
+				return
+			}
+			flipped, ok := flipSomeColours(r, base)
+			if !ok {
+				continue
+			}
+			next = lineGame{flipped, nil}
+			if r.Intn(2) == 0 {
+				// extra moves that are legal in both positions make the confusion silent
+				for _, m := range flipped.LegalMoves() {
+					if _, also := base.FindMove(m.From, m.To, m.Promo); also {
+						next = lineGame{flipped, []ref.Move{m}}
+						break
+					}
+				}
+			}
+			line, name = next.cmd(false), "case-flip"
 		default: // a search in between must not disturb the game
 			m := s.send("go depth 1")
 			s.waitLine(m, isBestmove, uciWatchdog)
@@ -260,7 +322,7 @@ func init() {
 			return mkCases(nil, "sessions", 64, seed, pick(tier, 5, 300))
 		},
 		Floors: func(string) map[string]int64 {
-			return map[string]int64{"sessions": 200, "state_checks": 1500, "cmd_extension": 100, "cmd_repeat": 50, "cmd_whitespace": 50, "cmd_truncation": 50, "cmd_fen-prefix-trap": 50, "cmd_after-ucinewgame": 50, "repetition_probes_reached": 100}
+			return map[string]int64{"sessions": 200, "state_checks": 1500, "cmd_extension": 100, "cmd_repeat": 50, "cmd_whitespace": 50, "cmd_truncation": 50, "cmd_fen-prefix-trap": 50, "cmd_after-ucinewgame": 50, "cmd_fen-of-current": 50, "cmd_case-flip": 30, "repetition_probes_reached": 100}
 		},
 		Run: func(c *fw.Ctx, cs fw.Case) {
 			r := cs.Rand()
